@@ -58,18 +58,22 @@ def run(rep):
 def replay(rep, case):
     c = case["case"]
     if "history" in c:
-        o = _run_history({"hist": c["history"]})
-        n = 6
-        tcfg = corpus._cfg("Trace_SurveyObject.cfg", "SPECIFICATION TSpec\n" + SO_CFG % n + "CONSTRAINT Accepted\nCHECK_DEADLOCK FALSE\n")
-        a, info = tlc.validate_traces("Trace_SurveyObject", tcfg, [o["trace"]], shards=1, tag="replay")
-        if 0 not in a:
-            rep.violation(f"{PROP}:history:{info['progress'].get(0, (0, '?'))[1]}", "replay", c)
-        return
+        return replay_history(rep, PROP, c)
     outs = corpus.run_forms([{"shapes": c["shapes"], "seed": c["seed"], "feat": c["feat"], "fmt": c["fmt"]}])
     sub, acc, rejected = _rp.validate(rep, PROP, outs, "replay")
     for o, l, clause in rejected:
         rep.violation(f"{PROP}:{clause}", f"trace rejected at event {l} clause {clause}", c)
     rep.sample({"rows": c["shapes"]})
+
+
+def replay_history(rep, prop, c):
+    o = _run_history({"hist": c["history"], "translated": prop == "C07"})
+    n = 6
+    tcfg = corpus._cfg("Trace_SurveyObject.cfg", "SPECIFICATION TSpec\n" + SO_CFG % n + "CONSTRAINT Accepted\nCHECK_DEADLOCK FALSE\n")
+    a, info = tlc.validate_traces("Trace_SurveyObject", tcfg, [o["trace"]], shards=1, env={"PROP": prop}, tag="replay")
+    rep.case({"history": c["history"]})
+    if 0 not in a:
+        rep.violation(f"{prop}:history:{info['progress'].get(0, (0, '?'))[1]}", "replay", c)
 
 
 # ---------------------------------------------------------------- survey-object histories (SurveyObject.tla)
@@ -83,18 +87,27 @@ def _run_history(job):
 
     from harness import project
 
+    tr = bool(job.get("translated"))
+
+    def lab(t):
+        return {"English (en)": t, "French (fr)": t + " fr"} if tr else t
+
     s = create_survey_element_from_dict({"type": "survey", "name": "data", "title": "t", "id_string": "h", "children": [
-        {"type": "text", "name": "q0", "label": "Q0"},
-        {"type": "group", "name": "grp", "label": "G", "children": [{"type": "integer", "name": "g0", "label": "G0"}]}]})
+        {"type": "text", "name": "q0", "label": lab("Q0")},
+        {"type": "group", "name": "grp", "label": lab("G"), "children": [{"type": "integer", "name": "g0", "label": lab("G0")}]}]})
     grp = next(c for c in s.children if c.name == "grp")
     trace = []
     for op, arg in job["hist"]:
         if op in ("add_root", "add_group"):
-            q = create_survey_element_from_dict({"type": "text", "name": arg, "label": arg.upper()})
+            d = {"type": "text", "name": arg, "label": lab(arg.upper())}
+            if tr:
+                d.update(hint=lab("hint " + arg), bind={"constraint": ". != 'x'", "jr:constraintMsg": lab("msg " + arg)})
+            q = create_survey_element_from_dict(d)
             (s if op == "add_root" else grp).add_child(q)
             trace.append({"op": op, "name": arg})
             continue
-        ev = {"op": "render", "outcome": "ok", "unique_siblings": False, "binds_once": False, "controls_once": False, "closure": False}
+        ev = {"op": "render", "outcome": "ok", "unique_siblings": False, "binds_once": False, "controls_once": False, "closure": False,
+              "refs_resolve": False, "same_ids": False, "has_refs": False}
         try:
             x = s.to_xml(validate=False, pretty_print=False)
             root = project.parse(x)
@@ -104,6 +117,13 @@ def _run_history(job):
             paths = {"/" + "/".join(p) for p in inst}
             ev.update(unique_siblings=len(inst) == len(set(inst)), binds_once=len(binds) == len(set(binds)), controls_once=len(refs) == len(set(refs)),
                       closure=all(b in paths for b in binds) and all(r in paths for r in refs))
+            if tr:
+                from harness import itextgen
+
+                f = itextgen.observe_free(x)
+                ids = {L: set(v) for L, v in f["ids"]}
+                ev.update(refs_resolve=all(r in ids[L] for r in f["refs"] for L in ids), same_ids=len({frozenset(v) for v in ids.values()}) <= 1,
+                          has_refs=len(f["refs"]) >= 3 and len(ids) == 2)
         except PyXFormError:
             ev["outcome"] = "rejected"
         except Exception as e:  # noqa: BLE001
@@ -112,8 +132,11 @@ def _run_history(job):
     return {"hist": job["hist"], "trace": trace}
 
 
-def part_histories(rep):
+def part_histories(rep, prop=None):
+    """prop None/"C02": structural closure of every render; "C07": the same histories on translated elements, itext closure of every render"""
     from harness import conv
+
+    prop = prop or PROP
 
     n = 5 if rep.tier == "quick" else 6
     cfg = corpus._cfg("Gen_SurveyObject.cfg", "SPECIFICATION SOSpec\n" + SO_CFG % n + "INVARIANT AcceptedMeansUnambiguous\nCONSTRAINT Emit\nCHECK_DEADLOCK FALSE\n")
@@ -122,25 +145,33 @@ def part_histories(rep):
     hists = [c["hist"] for c in cases if sum(1 for h in c["hist"] if h[0] == "render") >= 1]
     hists = corpus.pick(hists, 1500 if rep.tier == "quick" else 20000, rep.seed)
     rep.bounds["survey_object_histories"] = {"max_ops": n, "replayed": len(hists)}
-    outs = conv.map_cases(_run_history, [{"hist": h} for h in hists], chunksize=16)
+    outs = conv.map_cases(_run_history, [{"hist": h, "translated": prop == "C07"} for h in hists], chunksize=16)
     for o in outs:
         if o.get("status") == "harness_error":
             raise tlc.MachineryError(o["message"] + "\n" + o.get("tb", ""))
     tcfg = corpus._cfg("Trace_SurveyObject.cfg", "SPECIFICATION TSpec\n" + SO_CFG % n + "CONSTRAINT Accepted\nCHECK_DEADLOCK FALSE\n")
-    acc, info = tlc.validate_traces("Trace_SurveyObject", tcfg, [o["trace"] for o in outs], shards=6, tag="trso")
+    acc, info = tlc.validate_traces("Trace_SurveyObject", tcfg, [o["trace"] for o in outs], shards=6, env={"PROP": prop}, tag="trso")
     rep.traces_validated += len(acc)
     rep.extra.setdefault("trace_runs", []).append({"source": "Survey-object histories (render / mutate / render)", "traces": len(outs), "accepted": len(acc), "wall_s": round(info["wall"], 1)})
     for i, o in enumerate(outs):
         rep.case({"history": o["hist"]})
         if i not in acc:
             l, clause = info["progress"].get(i, (0, "unexplained_event"))
-            rep.violation(f"{PROP}:history:{clause}", f"clause {clause} at step {l}; history={o['hist']} events={o['trace']}"[:600], {"history": o["hist"], "clause": clause})
+            rep.violation(f"{prop}:history:{clause}", f"clause {clause} at step {l}; history={o['hist']} events={o['trace']}"[:600], {"history": o["hist"], "clause": clause, "translated": prop == "C07"})
     import copy
     base = next(o for i, o in enumerate(outs) if i in acc and any(e["op"] == "render" and e["outcome"] == "rejected" for e in o["trace"]))
     t = copy.deepcopy(base["trace"])
     e = next(e for e in t if e["op"] == "render" and e["outcome"] == "rejected")
-    e.update(outcome="ok", unique_siblings=True, binds_once=True, controls_once=True, closure=True)
-    a, _ = tlc.validate_traces("Trace_SurveyObject", tcfg, [t, base["trace"]], shards=1, tag="canso")
-    if 0 in a or 1 not in a:
+    e.update(outcome="ok", unique_siblings=True, binds_once=True, controls_once=True, closure=True, refs_resolve=True, same_ids=True, has_refs=True)
+    cans = [t]
+    if prop == "C07":
+        b2 = next(o for i, o in enumerate(outs) if i in acc and sum(1 for e in o["trace"] if e["op"] == "render" and e["outcome"] == "ok") >= 2)
+        t2 = copy.deepcopy(b2["trace"])
+        [e for e in t2 if e["op"] == "render" and e["outcome"] == "ok"][-1]["refs_resolve"] = False
+        cans.append(t2)
+    a, _ = tlc.validate_traces("Trace_SurveyObject", tcfg, cans + [base["trace"]], shards=1, env={"PROP": prop}, tag="canso")
+    if any(i in a for i in range(len(cans))) or len(cans) not in a:
         raise tlc.MachineryError("survey-object canary failure")
     rep.extra.setdefault("canaries_rejected", []).append("ambiguous_tree_rendered_after_an_earlier_render")
+    if prop == "C07":
+        rep.extra["canaries_rejected"].append("dangling_itext_reference_after_a_second_render")
